@@ -143,6 +143,8 @@ def inline_new_functions(modules, baseline, log=None):
                             continue
                         if _inline_method(modules, m, cls, meth):
                             done.append('%s:%s.%s' % (m.name, cls.name, meth.name))
+        if _pass == 0:
+            done.extend(_inline_closures(modules, baseline))
         if not cands:
             break
         cand_names = {k[1] for k in cands}
@@ -254,6 +256,101 @@ def _inline_method(modules, m, cls, meth):
         blk[i:i + 1] = new
     cls.body = [f for f in cls.body if f is not meth] or [ast.Pass()]
     return True
+
+
+def _owned_blocks(F):
+    """statement lists of F itself, not those of defs/classes nested in it"""
+    out = []
+    stack = [F]
+    while stack:
+        n = stack.pop()
+        for field in ('body', 'orelse', 'finalbody', 'handlers'):
+            blk = getattr(n, field, None)
+            if isinstance(blk, list) and blk and isinstance(blk[0], (ast.stmt, ast.ExceptHandler)):
+                if isinstance(blk[0], ast.stmt):
+                    out.append(blk)
+                for st in blk:
+                    if not isinstance(st, FuncTypes + (ast.ClassDef,)):
+                        stack.append(st)
+    return out
+
+
+def _inline_closures(modules, baseline):
+    """A local function that the reference tree does not have, and that is only ever CALLED (statement, assignment, return position or
+    hoistable) by the function that defines it, is substituted back.  Captured names are read at call time either way, so the inlined
+    body sees the same values; a closure that rebinds enclosing names (nonlocal) is left alone."""
+    done = []
+
+    def funcs(node, qual):
+        for st in getattr(node, 'body', []):
+            if isinstance(st, FuncTypes):
+                yield st, qual + [st.name]
+                yield from funcs(st, qual + [st.name])
+            elif isinstance(st, ast.ClassDef):
+                yield from funcs(st, qual + [st.name])
+    for m in modules.values():
+        for F, qual in list(funcs(m.tree, [])):
+            for _round in range(3):
+                changed = False
+                for blk in _owned_blocks(F):
+                    for h in [st for st in blk if isinstance(st, ast.FunctionDef)]:
+                        hid = '%s:%s.%s' % (m.name, '.'.join(qual), h.name)
+                        if hid in baseline or not _shape_ok(h):
+                            continue
+                        # defaults are evaluated where the def stands, the inlined body where the call stands: only constants are the same at both
+                        if not all(d is None or isinstance(d, ast.Constant) for d in list(h.args.defaults) + list(h.args.kw_defaults)):
+                            continue
+                        if any(isinstance(c, ast.Call) and isinstance(c.func, ast.Name) and c.func.id == h.name for c in ast.walk(h)):
+                            continue
+                        sites, call_funcs = [], set()
+                        for blk2 in _owned_blocks(F):
+                            for st in blk2:
+                                if isinstance(st, FuncTypes + (ast.ClassDef,)):
+                                    continue
+                                for c in [c for c in _stmt_exprs(st) if isinstance(c, ast.Call) and isinstance(c.func, ast.Name) and c.func.id == h.name]:
+                                    call_funcs.add(id(c.func))
+                                    kind = None
+                                    if isinstance(st, ast.Expr) and st.value is c:
+                                        kind = 'expr'
+                                    elif isinstance(st, ast.Assign) and st.value is c:
+                                        kind = 'assign'
+                                    elif isinstance(st, ast.Return) and st.value is c:
+                                        kind = 'return'
+                                    elif _is_expr_helper(h) and all(_simple_arg(a) for a in c.args) and all(_simple_arg(k.value) for k in c.keywords):
+                                        kind = 'exprsub'
+                                    elif isinstance(st, (ast.Return, ast.Assign, ast.Expr, ast.AugAssign)) and _hoistable(st, c, h.name):
+                                        kind = 'embedded'
+                                    sites.append((blk2, st, kind, c))
+                        # any other mention of the name in F (passed around, called from another closure, rebound) disables inlining
+                        if any(isinstance(n, ast.Name) and n.id == h.name and id(n) not in call_funcs and not _inside(n, h) for n in ast.walk(F)):
+                            continue
+                        if not sites:
+                            continue
+                        single = _single_tail_return(h)
+                        h1 = h
+                        if not single and any(kind not in ('return', 'exprsub') for (_b, _s, kind, _c) in sites):
+                            h1 = _single_exit_copy(h)
+                            if h1 is None:
+                                continue
+                            single = True
+                        if not all(kind is not None and (single or kind in ('return', 'exprsub')) for (_b, _s, kind, _c) in sites):
+                            continue
+                        if not all(_bindable(h, c) for (_b, _s, _k, c) in sites):
+                            continue
+                        names = {x.id for x in ast.walk(F) if isinstance(x, ast.Name) and not _inside(x, h)} | {a.arg for a in F.args.args + F.args.kwonlyargs}
+                        for (blk2, st, kind, c) in sites:
+                            newst = _expand(h if kind == 'return' else h1, c, kind, st, names)
+                            i = next(i for i, s_ in enumerate(blk2) if s_ is st)
+                            blk2[i:i + 1] = newst
+                        blk[:] = [s_ for s_ in blk if s_ is not h] or [ast.copy_location(ast.Pass(), h)]
+                        done.append(hid)
+                        changed = True
+                        break
+                    if changed:
+                        break
+                if not changed:
+                    break
+    return done
 
 
 def _find_sites(modules, hm, h):
